@@ -166,7 +166,7 @@ func (c *ChunkComposer) RunLoop(reader io.Reader, cb OnCompleteMessage) error {
 		}
 
 		var neededSize uint32
-		if stream.header.MsgLen <= c.peerChunkSize {
+		if stream.header.MsgLen <= c.peerChunkSize && stream.msg.Len() == 0 {
 			neededSize = stream.header.MsgLen
 		} else {
 			neededSize = stream.header.MsgLen - stream.msg.Len()
